@@ -140,6 +140,32 @@ func (u *Unit) checkGuarded(ev *Ev, root types.Type, path, ref, what string) {
 
 // ---- exits ----
 
+// bindEntryParams: in postconditions a parameter name denotes the argument the caller passed (its value at entry), as in
+// every contract language - Go parameters are assignable locals, and a body that overwrites one must not thereby rewrite
+// its own specification.
+func (u *Unit) bindEntryParams(sev *Ev, st *State) {
+	if u.sig == nil || u.entry == nil {
+		return
+	}
+	for i := 0; i < u.sig.Params().Len(); i++ {
+		p := u.sig.Params().At(i)
+		if p.Name() == "" || p.Name() == "_" {
+			continue
+		}
+		ev0, ok := u.entry.env[p]
+		if !ok {
+			continue
+		}
+		if cur, ok := st.env[p]; ok && cur.T == ev0.T && cur.K == ev0.K && cur.K == vScalar {
+			continue // unchanged scalar
+		}
+		if _, shadow := sev.binds[p.Name()]; shadow {
+			continue
+		}
+		sev.binds[p.Name()] = ev0
+	}
+}
+
 func (u *Unit) checkExit(st *State, fr *Frame) {
 	if u.c == nil {
 		return
@@ -162,6 +188,7 @@ func (u *Unit) checkExit(st *State, fr *Frame) {
 		u.reached["exit panic"] = true
 		for i, e := range u.c.EnsuresPanic {
 			sev := u.specEv(st, pos, u.name+" ensures_panic")
+			u.bindEntryParams(sev, st)
 			g := sev.expr(e.Expr)
 			u.emit(st, fmt.Sprintf("post_panic#%d", i), g.T, e.Text)
 		}
@@ -176,6 +203,7 @@ func (u *Unit) checkExit(st *State, fr *Frame) {
 		u.iterCountCheck(st, pos)
 	}
 	sev := u.specEv(st, pos, u.name+" ensures")
+	u.bindEntryParams(sev, st)
 	var vals []Value
 	if len(u.resultObjs) > 0 && len(fr.results) > 0 {
 		for _, o := range fr.results {
